@@ -183,6 +183,7 @@ def rule_pairing(T, rid):
                 # call of the helper is matched by exactly one decrement of count on the same path (same branch, same loop)
                 if any(r["key"].startswith("%s/%s/" % (P, rid)) and r["data"].get("via") == f.short for r in res):
                     continue
+                n_before = len(res)
                 for g, call in callers_of(T, f):
                     gname = g.short.rsplit("::", 1)[-1] if not g.short.startswith("<") else g.short.split(">::")[-1]
                     gkey = "%s/%s/%s/vacate-decrements-count" % (P, rid, gname)
@@ -210,6 +211,13 @@ def rule_pairing(T, rid):
                     else:
                         res.append(undecided(rid_full(P, rid), gkey, g.loc(call["ln"]), "the decrement of `count` is on some of the paths through the "
                                              "call of %s only" % fname, via=f.short))
+                if not any(r["status"] in ("ok", "undecided") for r in res[n_before:]):
+                    # nobody decrements: the function that empties the slot is the one that forgets the count
+                    del res[n_before:]
+                    res.append(bad(rid_full(P, rid), key, f.loc(w["expr"]["ln"]),
+                                   "%s::%s marks a slot EMPTY but neither it nor any of its callers decrements `count`: len(), the load-factor "
+                                   "test and the serialised map length drift away from the number of stored entries with every removal"
+                                   % (T.name, fname), via=f.short))
             else:
                 res.append(bad(rid_full(P, rid), key, f.loc(w["expr"]["ln"]),
                                "%s::%s marks a slot EMPTY but never decrements `count`: len(), the load-factor test and the serialised map "
@@ -669,7 +677,9 @@ def rule_guard(T, rid):
                     if not any(g.cfg.dominates(c, cb) for c in gchecks):
                         unguarded.append(g)
                 if callers and not unguarded:
-                    res.append(ok(rid_full(P, rid), key, f.loc(st.get("ln")), "helper: every caller checks the load factor first (%s)" % ", ".join(sorted(set(g.name for g, _c, _t in callers)))))
+                    res.append(ok(rid_full(P, rid), key, f.loc(st.get("ln")), "helper: every caller checks the load factor first (%s)%s" % (
+                        ", ".join(sorted(set(g.name for g, _c, _t in callers if g.name not in rehash))),
+                        "; %s re-counts the entries it moved into fresh storage (free slot: rule K)" % ", ".join(sorted(set(rehash))) if rehash else "")))
                 else:
                     who = unguarded[0].name if unguarded else f.name
                     res.append(bad(rid_full(P, rid), key, f.loc(st.get("ln")), "%s::%s increments count on a path with no load-factor check (via %s)" % (T.name, f.name, who)))
@@ -864,3 +874,263 @@ def rule_backshift(T, F, rid, struct_key, power_of_two, only=None, skip=("clear"
                     res.append({"ok": ok, "bad": bad, "undecided": undecided}[v[0]](
                         R, "%s/%s/%s/shifted-entry-is-examined" % (P, rid, h.name), h.loc(c["ln"]), "%s::%s: %s" % (T.name, h.name, v[1])))
     return res
+
+
+# ---------------------------------------------------------------------------------------------------
+# K: every resize leaves a free slot       (C12.K / C13.K, shared into C11.K/L)
+# ---------------------------------------------------------------------------------------------------
+
+class _Break(Exception):
+    pass
+
+
+class _Return(Exception):
+    def __init__(self, value):
+        Exception.__init__(self)
+        self.value = value
+
+
+def _xev_class():
+    from cao import capacity
+    from cao import backshift as bs
+
+    class XEv(capacity.FEv):
+        """FEv that executes statements: bodies of small crate functions with `let mut` locals, compound assignments, `while` /
+        `loop` with break and early returns (`min_capacity`) are run on the concrete values, with a step budget. Anything else
+        (stores to memory, pattern lets, calls that are not understood) is Unknown."""
+        FUEL = 20000
+
+        def __init__(self, F, f, env, fields=None, fuel=None):
+            capacity.FEv.__init__(self, F, f, env, fields)
+            self.fuel = fuel if fuel is not None else [self.FUEL]
+
+        def _ev(self, e):
+            e0 = hir_strip(e)
+            k = e0.get("k") if e0 is not None else None
+            if k == "block":
+                return self.run_block(e0["block"])
+            if k in ("loop", "assign", "assign_op", "ret", "break"):
+                return self.run_expr(e0)
+            if k == "if":
+                c = self.ev(e0["cond"])
+                br = e0["then"] if c else e0.get("else")
+                return self.ev(br) if br is not None else None
+            if k in ("call", "mcall"):
+                for n in hir_callee(e0):
+                    g = self.F.fn(n, required=False)
+                    if g is not None and g.hir is not None and not g.is_closure and n.count("::") >= 1 and not n.endswith("::home_slot"):
+                        args = ([e0["recv"]] if k == "mcall" else []) + list(e0["args"])
+                        pats = g.hir["params"]
+                        if len(pats) == len(args) and all(p_.get("k") == "bind" for p_ in pats):
+                            env = {}
+                            for p_, a in zip(pats, args):
+                                if p_.get("name") == "self":
+                                    continue
+                                try:
+                                    env[p_["id"]] = self.ev(a)
+                                except bs.Unknown as u:
+                                    env[p_["id"]] = u
+                            sub = XEv(self.F, g, env, self.fields, self.fuel)
+                            sub.depth = self.depth
+                            try:
+                                return sub.ev(g.hir["body"])
+                            except _Return as r:
+                                return r.value
+            return capacity.FEv._ev(self, e)
+
+        def run_block(self, bl):
+            for st in bl["stmts"]:
+                if st["k"] == "let":
+                    pat = st.get("pat") or {}
+                    if st.get("els") or pat.get("k") != "bind" or "sub" in pat:
+                        raise bs.Unknown("let with a pattern")
+                    if st.get("init") is not None:
+                        try:
+                            self.env[pat["id"]] = self.ev(st["init"])
+                        except (bs.Unknown, bs.Overflow) as u:
+                            self.env[pat["id"]] = u if isinstance(u, bs.Unknown) else bs.Unknown(str(u))
+                elif st["k"] in ("semi", "expr"):
+                    self.run_expr(st["e"])
+            if bl.get("expr") is not None:
+                return self.ev(bl["expr"])
+            return None
+
+        def run_expr(self, e):
+            e = hir_strip(e)
+            k = e.get("k")
+            self.fuel[0] -= 1
+            if self.fuel[0] < 0:
+                raise bs.Unknown("step budget exhausted (a loop that does not terminate in the small states?)")
+            if k in ("assign", "assign_op"):
+                lid = hir_local_id(e["l"])
+                if lid is None:
+                    raise bs.Unknown("store to something that is not a local")
+                r = self.ev(e["r"])
+                if k == "assign":
+                    self.env[lid] = r
+                else:
+                    a = self.env.get(lid)
+                    if a is None or isinstance(a, bs.Unknown):
+                        raise bs.Unknown("compound assignment to an unknown value")
+                    op = str(e.get("op", "")).replace("Assign", "")
+                    fake = {"k": "bin", "op": op, "l": {"k": "lit", "lit": {"k": "int", "v": a}}, "r": {"k": "lit", "lit": {"k": "int", "v": r}}}
+                    if isinstance(a, float) or isinstance(r, float):
+                        raise bs.Unknown("compound assignment on floats")
+                    self.env[lid] = bs.Ev._ev(self, fake)
+                return None
+            if k == "loop":
+                while True:
+                    self.fuel[0] -= 1
+                    if self.fuel[0] < 0:
+                        raise bs.Unknown("step budget exhausted (a loop that does not terminate in the small states?)")
+                    try:
+                        self.run_block(e["body"])
+                    except _Break:
+                        return None
+            if k == "break":
+                raise _Break()
+            if k == "continue":
+                raise bs.Unknown("continue")
+            if k == "ret":
+                raise _Return(self.ev(e["e"]) if e.get("e") is not None else None)
+            if k == "if":
+                c = self.ev(e["cond"])
+                br = e["then"] if c else e.get("else")
+                if br is not None:
+                    return self.run_expr(br)
+                return None
+            if k == "block":
+                return self.run_block(e["block"])
+            if k == "match":
+                raise bs.Unknown("match statement")
+            return self.ev(e)
+
+    return XEv
+
+
+def stores_capacity(f):
+    """the expression f stores into `self.capacity` (`self.capacity = e`, `mem::replace(&mut self.capacity, e)`), else None"""
+    for x in hir_walk(f.hir["body"]):
+        if x.get("k") == "assign":
+            l = hir_strip(x["l"])
+            if l.get("k") == "field" and l["name"] == "capacity":
+                return x["r"]
+        elif x.get("k") == "call" and any(n.endswith("mem::replace") or n.endswith("mem::swap") for n in hir_callee(x)) and len(x["args"]) == 2:
+            a0 = hu.strip_all(x["args"][0])
+            if a0 is not None and a0.get("k") == "field" and a0["name"] == "capacity":
+                return x["args"][1]
+    return None
+
+
+def free_slot_after_resize(T, pot):
+    """The function that installs fresh storage (it stores `self.capacity` and calls the table's storage allocator) is found
+    by what it does. For every call chain that reaches it from a function whose arguments are not under the table's control
+    (a public function, or one without callers in the crate) - through the private wrappers in between, whose parameters
+    are bound to the caller's argument values - and for every small state (count < capacity) in which the guards along the
+    chain hold, the capacity that is installed exceeds the number of stored items: a free slot remains, probes for absent
+    keys terminate. Arguments computed by helper functions with loops (`min_capacity`) are computed by running those
+    functions on the state. -> list of (fn, ln, ok|bad|undecided, message), attributed to the outermost function"""
+    from cao import capacity
+    from cao import backshift as bs
+    F = T.F
+    XEv = _xev_class()
+    resizers = [f for f in T.fns if f.hir and f.mir and stores_capacity(f) is not None and allocates_storage(T, f)]
+    if not resizers:
+        raise AnchorMissing("the function of %s that installs new storage (stores self.capacity after allocating)" % T.name)
+    caps = [1, 2, 4, 8, 16, 32, 64] if pot else list(range(1, 41))
+    PVALS = [0, 1, 2, 3, 5, 8, 13, 40]
+
+    def usize_params(f):
+        return [p for p in f.hir["params"] if p.get("k") == "bind" and p.get("name") != "self" and p.get("ty") in ("usize", "u32", "u64")]
+
+    def call_sites(target):
+        out = []
+        for f in F.fns:
+            if not f.hir or f.is_closure or f is target:
+                continue
+            for x in hir_walk(f.hir["body"]):
+                if x.get("k") in ("mcall", "call") and any(n == target.short for n in hir_callee(x)):
+                    out.append((f, x))
+        return out
+
+    def chains(target, depth=0):
+        """lists of (function, call node) from the outermost caller down to the call of `target`"""
+        out = []
+        for f, x in call_sites(target):
+            private = str(f.raw.get("vis", "")) != "Public" and T.fn_by_short(f.short) is not None
+            ups = chains(f, depth + 1) if (private and usize_params(f) and depth < 3) else []
+            if ups:
+                out.extend(c + [(f, x)] for c in ups)
+            else:
+                out.append([(f, x)])
+        return out
+
+    out = []
+    for S in resizers:
+        newcap = stores_capacity(S)
+        sp = usize_params(S)
+        if len(sp) != 1:
+            out.append((S, S.line, "undecided", "%s does not take the new capacity as its one integer argument" % S.name))
+            continue
+        all_chains = chains(S)
+        if not all_chains:
+            out.append((S, S.line, "undecided", "%s has no caller" % S.name))
+        for chain in all_chains:
+            f0, x0 = chain[0]
+            params0 = usize_params(f0)
+            guards = [capacity.guards_of(f, x) for f, x in chain]
+            bad_at = None
+            n_states = 0
+            via = " -> ".join([f.name for f, _x in chain[1:]] + [S.name])
+            try:
+                for c in caps:
+                    for n in range(0, c):
+                        for pv in (PVALS if params0 else [None]):
+                            fields = {"count": n, "capacity": c}
+                            env = {p["id"]: pv for p in params0}
+                            a = None
+                            skip = False
+                            for li, (f, x) in enumerate(chain):
+                                try:
+                                    if not all(bool(XEv(F, f, dict(env), fields).ev(g)) == want for g, want, _n in guards[li]):
+                                        skip = True
+                                        break
+                                    args = x["args"] if x.get("k") == "mcall" else x["args"][1:]
+                                    a = XEv(F, f, dict(env), fields).ev(args[0])
+                                except bs.Overflow:
+                                    skip = True
+                                    break
+                                nxt = chain[li + 1][0] if li + 1 < len(chain) else S
+                                np_ = usize_params(nxt)
+                                if len(np_) != 1:
+                                    raise bs.Unknown("%s does not take one integer argument" % nxt.name)
+                                env = {np_[0]["id"]: int(a)}
+                            if skip:
+                                continue
+                            newc = XEv(F, S, {sp[0]["id"]: int(a)}, fields).ev(newcap)
+                            n_states += 1
+                            if not (n < newc):
+                                bad_at = (n, c, pv, int(a), newc)
+                                break
+                        if bad_at:
+                            break
+                    if bad_at:
+                        break
+            except _Return:
+                out.append((f0, x0.get("ln"), "undecided", "resize argument not understood: early return in an expression"))
+                continue
+            except bs.Unknown as u:
+                out.append((f0, x0.get("ln"), "undecided", "resize argument not understood: %s" % u))
+                continue
+            if bad_at:
+                n, c, pv, a, newc = bad_at
+                out.append((f0, x0.get("ln"), "bad",
+                            "%s resizes the table to %d slots (%s(%d)) while it holds %d items (state: count %d, capacity %d%s): "
+                            "no slot is left empty, a lookup of a handle that is not in the table probes forever"
+                            % (f0.name, newc, via, a, n, n, c, "" if pv is None else ", argument %d" % pv)))
+            elif n_states == 0:
+                out.append((f0, x0.get("ln"), "undecided", "no small state reaches the resize through %s" % via))
+            else:
+                out.append((f0, x0.get("ln"), "ok", "a free slot remains after the resize (%s) in all %d small states (count < capacity <= %d)"
+                            % (via, n_states, caps[-1])))
+    return out
